@@ -339,6 +339,46 @@ example :
              ⟨⟨2, 5002⟩, 10, 0, false⟩, ⟨⟨1, 5001⟩, 100, 0, false⟩, ⟨⟨2, 5002⟩, 1, 0, false⟩]
       = [⟨⟨2, 5002⟩, 1, 20, 0, 3, 0, false⟩, ⟨⟨1, 5001⟩, 100, 102, 0, 3, 2, false⟩] := by decide
 
+open RtcModel.LatchHistory in
+/-- **window_tracks_history**: the link between the history-level table and the running connection.
+If the open window of `s` summarises the packet history `h` since it was armed (table = `tableOf h`,
+counter = `totalOf h`; true with `h = []` right after `enable_latch_on_rtp` / `reset_latch` / a retarget /
+an SSRC change, see the example below), then after one more expected-SSRC packet `x` the decision is
+the one the DOCUMENTED rules take on the summary of `x :: h`: either nothing is decided and the window
+summarises `x :: h` (so the statement applies again to the next packet), or the latch commits to a
+winner `w` with `Documented ⟨tableOf (x :: h), totalOf (x :: h), max⟩ w`. This ties rule 2's "≥ 3
+total" and rule 3's "max_packets observed" (`totalOf`) to the history as well. -/
+theorem window_tracks_history (s : St) (h : List Pkt) (p : Prob) (a : Addr) (ssrc seq ts : Nat) (m : Bool)
+    (hon : s.latchOn = true) (hl : s.rtpLatched = false) (hleg : s.expected = 0 ∨ ssrc = s.expected)
+    (hp : s.prob = some p) (hc : p.cands = tableOf h) (ht : p.total = totalOf h) :
+    (winner ⟨tableOf (⟨a, seq, ts, m⟩ :: h), totalOf (⟨a, seq, ts, m⟩ :: h), p.max⟩ = none →
+      (receive s a (.rtp ssrc seq ts m)).rtpLatched = false ∧
+      (receive s a (.rtp ssrc seq ts m)).prob =
+        some ⟨tableOf (⟨a, seq, ts, m⟩ :: h), totalOf (⟨a, seq, ts, m⟩ :: h), p.max⟩) ∧
+    (∀ w, winner ⟨tableOf (⟨a, seq, ts, m⟩ :: h), totalOf (⟨a, seq, ts, m⟩ :: h), p.max⟩ = some w →
+      (receive s a (.rtp ssrc seq ts m)).rtpLatched = true ∧ (receive s a (.rtp ssrc seq ts m)).remote = w ∧
+      Documented ⟨tableOf (⟨a, seq, ts, m⟩ :: h), totalOf (⟨a, seq, ts, m⟩ :: h), p.max⟩ w) := by
+  have htot : satInc totalMax (totalOf h) = totalOf (⟨a, seq, ts, m⟩ :: h) := by
+    simp only [totalOf, capped, satInc, totalMax_eq, List.length_cons]
+    split <;> split <;> (try split) <;> simp_all <;> omega
+  have htab : observe (tableOf h) a seq ts m = tableOf (⟨a, seq, ts, m⟩ :: h) := by
+    rw [← table_is_summary_of_history h, ← table_is_summary_of_history (⟨a, seq, ts, m⟩ :: h)]; rfl
+  have hp1 : ({ p with total := satInc totalMax p.total, cands := observe p.cands a seq ts m } : Prob) =
+      ⟨tableOf (⟨a, seq, ts, m⟩ :: h), totalOf (⟨a, seq, ts, m⟩ :: h), p.max⟩ := by
+    rw [hc, ht, htab, htot]
+  refine ⟨fun hw => ?_, fun w hw => ?_⟩
+  · have := no_winner_step s a ssrc seq ts m p hon hl hp hleg (by rw [hp1]; exact hw)
+    exact ⟨this.1, by rw [this.2.2, hp1]⟩
+  · have := commit_step s a ssrc seq ts m p w hon hl hp hleg (by rw [hp1]; exact hw)
+    exact ⟨this.2.1, this.1, winner_matches_documented_rules _ w hw⟩
+
+open RtcModel.LatchHistory in
+/-- the arming operations start the history at `[]` -/
+example (a : Addr) (mx : Nat) (tcp : Bool) (h0 : 0 < mx) :
+    (enableLatch (init a mx tcp)).prob = some ⟨tableOf [], totalOf [], mx⟩ ∧
+    (resetLatch (enableLatch (init a mx tcp))).prob = some ⟨tableOf [], totalOf [], mx⟩ := by
+  simp [enableLatch, init, resetLatch, freshProb, h0, tableOf, totalOf, srcs, capped, totalMax_eq]
+
 /-! ### Commit within the configured number of probation packets -/
 
 /-- probation bookkeeping invariant: the counter is strictly below the (u8) limit -/
